@@ -25,6 +25,25 @@ func init() {
 		},
 		Extra: func(g *genCtx) string { return createTokenResponseFacts(g) + refreshHandlerFacts(g) },
 	})
+	// C04: the two places of the authorization endpoint the code-grant history depends on - what an id_token_hint
+	// makes of the pending request's subject (ValidateAuthReqIDTokenHint: valid AND expired hints yield their subject),
+	// and the guard of the callback handler (AuthorizeCallback: a code only for a request that is Done()).
+	// A second, stateful-shell model of functions the C03 slice models with URL oracles: own namespace.
+	extraGroups = append(extraGroups, Group{
+		Out:     "FlowAuthz.lean",
+		NS:      "GenFlow",
+		Imports: []string{"OidcModel.Model.FlowAuthz", "OidcModel.Generated.RPVerifier"},
+		Opens:   []string{"Go", "Hand", "Const", "Gen"},
+		Funcs: []FuncSpec{
+			{File: "pkg/op/auth_request.go", Name: "ValidateAuthReqIDTokenHint", Lean: "ValidateAuthReqIDTokenHint",
+				Params: []string{"(tokenOf : String → Token)", "(idTokenHint : String)", "(verifier : Verifier)"}, Ret: RetValErr, RetType: "String",
+				SoftErr: map[string]string{"IDTokenHintExpiredError": "Hand.flowHintClaims"},
+				Rename:  map[string]string{"VerifyIDTokenHint()": "Hand.flowViaToken tokenOf (VerifyIDTokenHint now)"}},
+			{File: "pkg/op/auth_request.go", Name: "AuthorizeCallback", Lean: "AuthorizeCallback",
+				Params: []string{"(r : FlowCbReq)", "(authorizer : Provider)"}, Ret: RetHandled,
+				Rename: map[string]string{"ParseAuthorizeCallbackRequest()": "Hand.flowParseCallback now"}},
+		},
+	})
 }
 
 type issueCall struct {
